@@ -129,11 +129,14 @@ Key == [sbases |-> sbases, regs |-> regs, subs |-> subs, ext |-> ext,
         vdirty |-> vdirty, cache |-> cache, mcache |-> mcache,
         scache |-> scache, watch |-> watch]
 
-Emit == PrintT(ToJson([lvl |-> TLCGet("level"), from |-> Key, act |-> act',
-                       to |-> Key',
-                       obs |-> IF TLCGet("level") % ObsEvery = 0
-                                  THEN [g \in Regs |-> ObsOf(g)']
-                                  ELSE <<>>]))
+\* Priming an operator whose body applies RECURSIVE operators is extremely
+\* slow in TLC, so transitions are dumped with keys only (plain primed
+\* variables) and the observation of each state is dumped, unprimed, by an
+\* invariant; the harness joins the two on the state key.
+Emit == PrintT(ToJson([kind |-> "edge", lvl |-> TLCGet("level"),
+                       from |-> Key, act |-> act', to |-> Key']))
+DumpObs == PrintT(ToJson([kind |-> "obs", key |-> Key,
+                          obs |-> [g \in Regs |-> ObsOf(g)]]))
 
 DumpState == PrintT(ToJson([regs |-> regs, sreg |-> subs,
                              obs |-> [g \in Regs |-> ObsOf(g)]]))
